@@ -3,7 +3,7 @@ from .. import terms as T
 from ..lib import summarise, heap_writes, V, A, normal, raising, cond_str, no_inline, writers_of_attr
 from ..symex import Valuation, default_policy
 from ..terms import fmt, ZERO, num
-from .sizers import sizing_paths, EQUITY, call_is
+from .sizers import sizing_paths, EQUITY, call_is, loop_asset_weight, is_empty_weights_path
 
 CN = 'LongShortLeveragedOrderSizer'
 
@@ -14,6 +14,8 @@ def gross_sum(t):
         c = t[2][0]
         if len(c[3]) == 1 and fmt(c[3][0][1]) == 'weights.values()' and not c[3][0][2]:
             return c[2] == ('call', ('ext', 'ABS'), (c[3][0][0][0],), ())
+    if call_is(t, 'SUM') and len(t[2]) == 1 and call_is(t[2][0], 'ABS'):      # np.abs(array of values).sum() style
+        return 'weights' in fmt(t[2][0])
     return False
 
 
@@ -60,8 +62,7 @@ def check(ctx):
     ctx.floor('C11.S2', 'sizing paths of the long/short sizer', len(sp), 2)
     for s in sp:
         p, lp = s['path'], s['loop']
-        el = ('elem', lp.iter, lp.id)
-        asset, w = ('sub', el, num(0)), ('sub', el, num(1))
+        asset, w, wsrc = loop_asset_weight(lp)
         alloc = T.t_mul(EQUITY, w)
         kinds = {}
         for b in s['bodies']:
@@ -122,12 +123,11 @@ def check(ctx):
             else:
                 ctx.require(nan is False, 'C11.S3', 'the division by the price happens only after the NaN check passed', lp.site, cond_str(bp)[:120], key='C11.S3|nan-dominates')
         ctx.require(seen_raise, 'C11.S3', 'an unavailable (NaN) price is rejected with ValueError', lp.site, key='C11.S3|nan-raise')
-        it = lp.iter
-        src = it[2][0] if call_is(it, 'SORTED') else it
-        ctx.require(src[0] == 'call' and src[1] == ('meth', 'items'), 'C11.S1', 'the sizing loop runs over the scaled weights', lp.site, fmt(it)[:100], key='C11.S1|loop-source')
+        ok = wsrc == V('weights') or (wsrc[0] == 'comp' and wsrc[1] == 'dict')
+        ctx.require(ok, 'C11.S1', 'the sizing loop runs over the scaled weights', lp.site, fmt(wsrc)[:100], key='C11.S1|loop-source')
     for p in ps:
         if p.outcome == 'return' and p.value == ('dict', ()) and not any(e.kind == 'loop' for e in p.events):
-            ok = any(fmt(c) in ('LEN(weights) == 0', '0 == LEN(weights)') and v for c, v, _ in p.conds) and len(p.conds) == 1
+            ok = is_empty_weights_path(p) and len(p.conds) == 1
             ctx.require(ok, 'C11.S2', 'an empty target is returned only for an empty weight dict', ctx.fn(CN + '.__call__').site(), cond_str(p)[:120], key='C11.S2|empty-only')
     # ---- S3 leverage guard
     fn = ctx.fn(CN + '._check_set_gross_leverage')
@@ -139,7 +139,7 @@ def check(ctx):
         ctx.require(outs == want, 'C11.S3', 'a gross leverage of %s is %s' % (val_, 'accepted unchanged' if valid else 'rejected with ValueError'), fn.site(), sorted(outs),
                     key='C11.S3|leverage|%s' % val_)
     from . import c05
-    c05.s4_fee_models(ctx)
+    ctx.sub(c05.s4_fee_models)
     ps = summarise(ctx, CN + '.__init__', policy=no_inline)
     for p in normal(ps):
         w = heap_writes(p, 'gross_leverage')
